@@ -10,6 +10,7 @@ CONSTANTS MaxW,        \* total feature weight
           MaxRoot,     \* load statements in the root
           MaxMid,      \* load statements in the middle file
           RootTargets, \* targets the root may load
+          MidTargets,  \* targets the middle file may load
           Spellings, CfgPool, ListPool, AccNs, AccMembers,
           LawDev       \* the deviations under which the laws are evaluated ({} = the ideal rules)
 
@@ -23,7 +24,8 @@ E(c, pre, n) == [c |-> c, pre |-> pre, n |-> n]
 CfgsBasic == {<<>>, <<C("d", "c1")>>, <<C("p", "c1")>>, <<C("q", "c1")>>}
 CfgsFull  == CfgsBasic \cup {<<C("d", "c1"), C("d", "c2")>>, <<C("d", "c1"), C("p", "c2")>>,
                              <<C("q", "c1"), C("q", "c2")>>, <<C("p", "c1"), C("d", "c2")>>}
-Cfgs == IF CfgPool = "full" THEN CfgsFull ELSE IF CfgPool = "none" THEN {<<>>} ELSE CfgsBasic
+CfgsPi == {<<>>, <<C("pi", "c1")>>}
+Cfgs == IF CfgPool = "full" THEN CfgsFull ELSE IF CfgPool = "none" THEN {<<>>} ELSE IF CfgPool = "pi" THEN CfgsPi ELSE CfgsBasic
 
 (* show/hide lists *)
 Singles(pre) == {<<E("var", pre, "d")>>, <<E("var", pre, "p")>>, <<E("fun", pre, "f")>>, <<E("fun", pre, "m")>>}
@@ -31,7 +33,8 @@ ListsBasic == Singles(0) \cup Singles(1)
 ListsFull  == ListsBasic \cup {<<E("fun", 0, "f"), E("var", 0, "d")>>, <<E("fun", 1, "f"), E("var", 1, "d")>>,
                                <<E("var", 1, "f")>>, <<E("fun", 1, "d")>>, <<E("var", 0, "f")>>,
                                <<E("fun", 0, "m"), E("var", 0, "p")>>, <<E("fun", 1, "m"), E("fun", 1, "f")>>}
-Lists == IF ListPool = "full" THEN ListsFull ELSE ListsBasic
+ListsPi == {<<E("var", 0, "pi")>>, <<E("var", 1, "pi")>>, <<E("var", 0, "e")>>, <<E("var", 1, "e")>>, <<E("fun", 0, "pi")>>}
+Lists == IF ListPool = "full" THEN ListsFull ELSE IF ListPool = "pi" THEN ListsPi ELSE ListsBasic
 
 UseStmts(targets) ==
   {[k |-> "use", t |-> t, sp |-> sp, as |-> as, cfg |-> c] :
@@ -52,9 +55,10 @@ SaneStmt(st) == (st.sp # "plain" => st.t \in LibFiles)
 
 Accesses ==
   {[k |-> "get", ns |-> ns, kind |-> km[1], pre |-> pre, n |-> km[2]] : ns \in AccNs, km \in AccMembers, pre \in {0, 1}}
-  \cup {[k |-> "set", ns |-> ns, kind |-> "var", pre |-> 0, n |-> "pi"] : ns \in AccNs \cap {"math", "n"}}
+  \cup {[k |-> "set", ns |-> ns, kind |-> "var", pre |-> pre, n |-> "pi"] : ns \in AccNs, pre \in {0, 1}}
 
 AccMembersAll == {<<"var", "d">>, <<"var", "p">>, <<"var", "o">>, <<"var", "q">>, <<"var", "pi">>, <<"fn", "f">>, <<"mix", "m">>}
+AccMembersPi  == {<<"var", "pi">>, <<"var", "o">>}
 AccMembersFwd == {<<"var", "d">>, <<"var", "p">>, <<"var", "o">>, <<"fn", "f">>, <<"mix", "m">>}
 
 Init == r = <<>> /\ m = <<>> /\ acc = [k |-> "none"] /\ phase = "root" /\ w = 0
@@ -70,7 +74,7 @@ RootDone == /\ phase = "root" /\ Len(r) >= 1
             /\ UNCHANGED <<r, m, acc, w>>
 
 AddMid == /\ phase = "mid" /\ Len(m) < MaxMid
-          /\ \E st \in UseStmts(LibFiles \cap {"a"}) \cup FwdStmts({"a"} \cup (RootTargets \cap Builtins)) :
+          /\ \E st \in UseStmts(MidTargets \ Builtins) \cup FwdStmts(MidTargets) :
                /\ SaneStmt(st) /\ st.sp = "plain" /\ (st.k = "use" => st.as = "def") /\ w + Weight(st) <= MaxW
                /\ m' = Append(m, st) /\ w' = w + Weight(st)
           /\ UNCHANGED <<r, acc, phase>>
